@@ -56,6 +56,23 @@ let parse_op s =
   | ["RBLOCK";h] -> RBLOCK (unhex h) | ["RHDR";n] -> RHDR (z_of_string n) | ["RDATA";h] -> RDATA (unhex h)
   | ["PUSH";c] -> PUSH (int_to_z (int_of_string c)) | ["NUMS";n;d] -> NUMS (int_to_z (int_of_string n), int_to_z (int_of_string d))
   | ["SYSTERR"] -> SYSTERR | ["RETERR"] -> RETERR
+  | ["RI8";v] -> RI8 (z_of_string v) | ["RU8";v;b] -> RU8 (z_of_string v, int_to_z (int_of_string b))
+  | ["RI16";v] -> RI16 (z_of_string v) | ["RU16";v;b] -> RU16 (z_of_string v, int_to_z (int_of_string b))
+  | ["RMNEM";h] -> RMNEM (unhex h) | ["RMNEM"] -> RMNEM []
+  | ["RD";b] -> RD (z_of_string b) | ["RF";b] -> RF (z_of_string b)
+  | ["ISCMD";h] -> ISCMD (unhex h)
+  | ["RARR";size;fmt;h] ->
+      let sz = int_of_string size in
+      let rec take k l = if k = 0 then ([], l) else (match l with x :: r -> let (a, b) = take (k-1) r in (x :: a, b) | [] -> ([], [])) in
+      let rec elems l = if L.length l < sz then [] else
+        let (e, rest) = take sz l in
+        (L.fold_right (fun b acc -> zadd (zmul acc (int_to_z 256)) (int_to_z b)) e Z0) :: elems rest in
+      RARR (int_to_z sz, int_to_z (int_of_string fmt), elems (unhex_ints h))
+  | ["PARR";ty;cap;m] ->
+      let k = (match ty with "i32" -> 13 | "u32" -> 14 | "i64" -> 15 | "u64" -> 16 | "d" -> 17 | _ -> 18) in
+      PARR (int_to_z k, int_to_z (int_of_string cap), b01 m)
+  | ["PEXPRN";idx;m] -> PEXPRN (int_to_z (int_of_string idx), b01 m)
+  | ["PEXPRC";idx;cap;m] -> PEXPRC (int_to_z (int_of_string idx), int_to_z (int_of_string cap), b01 m)
   | _ -> raise Unsupported
 let print_trace buf (tr:event list) =
   let wbuf = Buffer.create 64 in
@@ -65,7 +82,12 @@ let print_trace buf (tr:event list) =
     | _ -> flushw ();
       (match e with
        | EvH (tag, h) -> Buffer.add_string buf (Printf.sprintf " H%d:%s" (z_to_int tag) (hex h))
-       | EvP (k, ok, v) -> Buffer.add_string buf (Printf.sprintf " P%d:%d:%s" (z_to_int k) (bi ok) (zs v))
+       | EvP (k, ok, v) ->
+           let ki = z_to_int k in
+           Buffer.add_string buf (Printf.sprintf " P%d:%d:%s" ki (bi ok) (zs v));
+           (* the array readers also report how many elements were stored *)
+           if ki >= 13 && ki <= 18 && ok then Buffer.add_string buf (Printf.sprintf ";%d" (L.length v))
+       | EvI r -> Buffer.add_string buf (Printf.sprintf " I%d" (bi r))
        | EvF -> Buffer.add_string buf " F"
        | EvE c -> Buffer.add_string buf (Printf.sprintf " E%d" (z_to_int c))
        | EvR r -> Buffer.add_string buf (Printf.sprintf " R%d" (bi r))
@@ -246,7 +268,7 @@ let handle line =
         let rec take k l = if k = 0 then ([], l) else (match l with x :: r -> let (a, b) = take (k-1) r in (x :: a, b) | [] -> ([], [])) in
         let (e, rest) = take sz l in
         (L.fold_right (fun b acc -> zadd (zmul acc (int_to_z 256)) (int_to_z b)) e Z0) :: elems rest in
-      let (b, c) = BufModel.array_binary true (int_to_z (int_of_string fmt)) (nat_of sz) (elems bytes) in
+      let (b, c) = BufModel.array_binary ParserModel.native_le (int_to_z (int_of_string fmt)) (nat_of sz) (elems bytes) in
       Printf.sprintf "ARR %s %d" (hexz b) (z_to_int c)
   | ["LAYOUT"; digits; decpt; prec; neg] ->
       let ds = L.init (S.length digits) (fun i -> int_to_z (Char.code digits.[i])) in
